@@ -15,7 +15,7 @@ static A_INLINE void *a_buf_dec_(void *ctx_)
 
 a_buf *a_buf_new(a_size siz, a_size num)
 {
-    a_buf *const ctx = (a_buf *)a_alloc(A_NULL, sizeof(a_buf) + siz * num);
+    a_buf *const ctx = (a_buf *)a_alloc(A_NULL, sizeof(a_buf) + (siz ? siz : 1) * num);
     if (ctx) { a_buf_ctor(ctx, siz, num); }
     return ctx;
 }
